@@ -25,7 +25,7 @@ RULE = ('(a) channel faults: reports are produced by the real '
         'and fed to the real spawn_layer_in_subprocess through fake pipes: '
         'complete, truncated at EVERY byte offset, with 9 kinds of noise '
         'before and after, 6 kinds of stdout content, Popen raising OSError, '
-        '-v 0/1/2; with a parent stdout that cannot encode the child\'s bytes (ascii, latin-1); 7 worlds whose tests write 10 kinds of header look-alikes and bulk text through sys.stdout/sys.stderr (text and .buffer, in setUp and body) in resumed and -j children; (b) crash matrix with real processes: the child dies at '
+        '-v 0/1/2; with a parent stdout that cannot encode the child\'s bytes (ascii, latin-1); 11 worlds (4 with --buffer, 3 with the failing test itself writing) whose tests write 10 kinds of header look-alikes and bulk text through sys.stdout/sys.stderr (text and .buffer, in setUp and body) in resumed and -j children; (b) crash matrix with real processes: the child dies at '
         '{import, layer setUp, test setUp/body/tearDown, layer tearDown, every '
         'str() call on the way to and inside the report} by {_exit(0), '
         '_exit(3), SIGKILL, SIGSEGV, sys.exit(0), sys.exit(3)} under -j2 and as a resumed child; (c) conformance: stdout and '
@@ -48,7 +48,9 @@ NAMES = ['test_a (m.T.test_a)', 'tëst_ü (m.T.tëst_ü)', 'x' * 5000,
          'nel\x85id', ' lead and trail ', 'tab\tid', '0 0 0']
 NOISE = [b'text\n', b'\n', b'Traceback (most recent call last):\n', b'1 2\n',
          b'1 2 x\n', b'\xff\xfe invalid utf-8\n', b'x' * 200000 + b'\n',
-         b'0 0 0\n', b'7 1 0\n']
+         b'0 0 0\n', b'7 1 0\n',
+         # lines that only BEGIN like a header
+         b'3 0 0 hits/misses/evictions\n', b'1 2 3 4\n', b'12 0 0\tcache\n', b'5 0 0.5\n']
 STDOUTS = [b'', b'..\n.\n', b'y' * (1 << 20) + b'\n', b'\xff\xfe\n',
            b'Running x tests:\n  no newline at end', b'\n\n\n']
 
@@ -366,6 +368,12 @@ NOISE_WORLDS = [
     ('A2B1i', [None, 'fail', 'error'], ['-j2']),
     ('A2B1i', ['sub:1,1,0', None, 'pass'], ['-j3', '-vv']),
     ('U1A2', ['pass', None, 'fail'], ['-j2']),
+    # with --buffer (the streams are swapped around every test), and with the
+    # FAILING test itself writing the look-alike
+    ('N1B2C1', ['pass', 'fail', None, 'error'], ['--buffer']),
+    ('N1B2C1', ['pass', 'FAILW', 'pass', 'error'], ['--buffer']),
+    ('A2B1i', ['FAILW', 'fail', 'error'], ['-j2', '--buffer']),
+    ('A2B1i', ['FAILW', 'pass', 'pass'], ['-j2']),
 ]
 # what the noisy test writes through sys.stdout / sys.stderr (never the real
 # fd 2: that is the known header-spoofing finding)
@@ -381,7 +389,8 @@ TEST_NOISE = [
 
 def run_noise_world(wi, ni):
     shape, sc, argv = NOISE_WORLDS[wi]
-    sc = [({'s': 'pass', 'w': TEST_NOISE[ni], 'ws': TEST_NOISE[ni]} if s is None else s) for s in sc]
+    sc = [({'s': 'pass', 'w': TEST_NOISE[ni], 'ws': TEST_NOISE[ni]} if s is None else
+           ({'s': 'fail', 'w': TEST_NOISE[ni]} if s == 'FAILW' else s)) for s in sc]
     spec = ow.build(shape, sc)
     res = runrt.run_world(spec, argv)
     truth = ow.Truth(spec, res)
